@@ -309,8 +309,20 @@ Definition store0 : cstore := fun l => match l with LOpt c => VNum (c + 7) | _ =
 Record obs_write := mkow {
   ow_loc : cloc;
   ow_empty : bool;    (* the cell was absent / None before the write *)
-  ow_idem : bool      (* recomputing gives an equal value and a repeated call leaves the cell alone *)
+  ow_idem : bool;     (* recomputing gives an equal value and a repeated call leaves the cell alone *)
+  ow_kind : N         (* 0 fill of an absent cell; 1 overwrite with an equivalent value;
+                         2 overwrite with a different value; 3 the cell was DELETED
+                         (del / pop / clear / eviction) *)
 }.
+
+(* memo cells only ever grow: no observed write removes a memo entry or
+   replaces it by a different value (the measured counterpart of wr_ok, see
+   memo_cells_monotone) *)
+Definition memo_write_monotone (w : obs_write) : bool :=
+  match ow_loc w with
+  | LResolved _ _ | LFactory _ => ow_kind w <=? 1
+  | _ => true
+  end.
 
 Record fp_case := mkfp {
   fc_client : N;                   (* the client the call was made through *)
@@ -339,13 +351,18 @@ Definition fp_agrees (x : fp_case) : bool :=
 Definition write_allowed (c : N) (w : obs_write) : bool :=
   match ow_loc w with
   | LMsgTx c' | LMsgRx c' => c' =? c
-  | LResolved _ _ | LFactory _ => ow_empty w && ow_idem w
+  | LResolved _ _ | LFactory _ =>
+      ow_idem w && ((ow_empty w && (ow_kind w =? 0)) || (ow_kind w =? 1))
   | LProxy c' => (c' =? c) && ow_idem w     (* re-assigned with the same value by every call *)
   | _ => false
   end.
 
+Definition fp_monotone (x : fp_case) : bool :=
+  forallb memo_write_monotone (fc_writes x ++ fc_transient x).
+
 Definition fp_spec_ok (x : fp_case) : bool :=
-  forallb (write_allowed (fc_client x)) (fc_writes x ++ fc_transient x) && (fc_msg_reads x =? 0).
+  forallb (write_allowed (fc_client x)) (fc_writes x ++ fc_transient x) && (fc_msg_reads x =? 0)
+  && fp_monotone x.
 
 (* --- (2) two..four real invocations under a controlled schedule --- *)
 
@@ -562,3 +579,21 @@ Definition SC (calls : list call) (plan obs : list (list N)) : sched_case :=
   mksc calls
        (map (fun s => (N.to_nat (nth 0 s 0), (N.to_nat (nth 1 s 0), N.to_nat (nth 2 s 0)))) plan)
        (map (fun o => mkout (negb (nth 0 o 0 =? 0)) (nth 1 o 0)) obs).
+
+(* compact literals for measured footprints *)
+Definition loc_of_code (l : list N) : cloc :=
+  let a := nth 1 l 0 in let b := nth 2 l 0 in
+  match nth 0 l 0 with
+  | 0 => LOpt a | 1 => LMsgTx a | 2 => LMsgRx a
+  | 3 => LResolved a (negb (b =? 0)) | 4 => LFactory a
+  | 5 => LMrNodes a | 6 => LMrCatalog a | 7 => LProxy a
+  | 8 => LClassAttr a b | 9 => LBinding a b
+  | _ => LOther a b
+  end.
+
+(* OW [loc tag; a; b; empty; idem; kind] *)
+Definition OW (l : list N) : obs_write :=
+  mkow (loc_of_code l) (negb (nth 3 l 0 =? 0)) (negb (nth 4 l 0 =? 0)) (nth 5 l 0).
+
+Definition FP (client : N) (writes transient : list (list N)) (reads : N) : fp_case :=
+  mkfp client (map OW writes) (map OW transient) reads.
